@@ -36,6 +36,8 @@ type JobRun struct {
 	seenPoint      map[string]int
 	delivered      [][]string // batches that reached the sink in this run (canonical ids)
 	toTransform    [][]string
+	carryIn        []string // C10: what a run killed inside a batch passed to the transform / the sink
+	carryOut       []string
 	crashDirs      []string
 	lastRunFailed  bool
 	failNextCommit bool
@@ -149,6 +151,13 @@ func (r *JobRun) installFaults(jobID string, spec map[string]any) {
 			r.delivered = append(r.delivered, entIDs(r.H, subject))
 		case "transform.batch":
 			r.toTransform = append(r.toTransform, entIDs(r.H, subject))
+			if k := intOf(spec, "killTransformAt"); k > 0 && len(r.toTransform) == k {
+				// the job is killed while a transform worker of the current batch is starting
+				r.Stats["fault_kill_in_transform"]++
+				r.recMu.Unlock()
+				r.H.Full.Sched.KillJob(jobID)
+				r.recMu.Lock()
+			}
 		}
 		return nil
 	}
@@ -517,7 +526,12 @@ func (r *JobRun) runOp(op *Op, i int) *Violation {
 	if res == nil {
 		return viol(prop, "job-run", "no-result", "job %s ended without a stored result", id)
 	}
-	if prop == "C10" {
+	if prop == "C10" && lastErr != "" && intOf(spec, "killTransformAt") > 0 {
+		// a killed run cannot deliver everything; what it delivered counts for the run that follows it
+		r.carryIn = append(r.carryIn, flatten(r.toTransform)...)
+		r.carryOut = append(r.carryOut, flatten(r.delivered)...)
+		r.Stats["runs_killed_in_transform"]++
+	} else if prop == "C10" {
 		if v := r.checkTransformDelivery(id, jobType, cfg, lastErr); v != nil {
 			return v
 		}
@@ -658,6 +672,33 @@ func (r *JobRun) checkTransformDelivery(id, jobType string, cfg map[string]any, 
 		expIDs = append(expIDs, v.C.ID)
 	}
 	gotIn := flatten(r.toTransform)
+	if (len(r.carryIn) > 0 || len(r.carryOut) > 0) && jobType != "fullsync" {
+		// the run before this one was killed inside a batch: between them the two runs must have passed every source
+		// entity to the transform and everything the transform returns for it to the sink (the token of the
+		// killed run may not be ahead of what it delivered)
+		inSet, outSet := map[string]bool{}, map[string]bool{}
+		for _, x := range append(append([]string(nil), r.carryIn...), gotIn...) {
+			inSet[x] = true
+		}
+		for _, x := range append(append([]string(nil), r.carryOut...), flatten(r.delivered)...) {
+			outSet[x] = true
+		}
+		r.carryIn, r.carryOut = nil, nil
+		for _, x := range expIDs {
+			if !inSet[x] {
+				return viol("C10", "transform-delivery", "delivery-mismatch:after-kill", "cell %s: the previous run was killed while a transform worker was starting; source entity %s reached the transform neither in that run nor in this one", cell, shortURI(x))
+			}
+		}
+		for _, x := range applyVariant(variant, expIn) {
+			if !outSet[x] {
+				return viol("C10", "transform-delivery", "delivery-mismatch:after-kill", "cell %s: the previous run was killed while a transform worker was starting; %s, which the transform returns, reached the sink neither in that run nor in this one", cell, shortURI(x))
+			}
+		}
+		r.consumed[id] = len(d.Versions)
+		r.Stats["transform_delivery_checks_after_kill"]++
+		return nil
+	}
+	r.carryIn, r.carryOut = nil, nil
 	if strings.Join(sortedCopy(gotIn), ",") != strings.Join(sortedCopy(expIDs), ",") {
 		cls := "wrong-set"
 		if len(gotIn) < len(expIDs) {
